@@ -122,6 +122,24 @@ def st_case(draw):
     else:
         first = draw(G.st_point_kw(cm, forms=forms, dyadic=True, tz=draw(tzs)))
     pts = [first]
+    if not dec and M.kw_form(first) == "hms" and draw(st.integers(0, 5)) == 0:
+        # decimal seconds that are NOT exact binary fractions: re-zoning never
+        # touches the seconds field, so equal instants must still compare and
+        # hash alike; the other points keep the same second (shifts by whole
+        # minutes), so that both sides hold the very same float
+        f = draw(st.sampled_from([0.14, 0.36, 0.57, 0.1, 0.3, 0.999, 0.001,
+                                  0.07]))
+        first["second_of_minute_decimal"] = f
+        whole = int(M.kw_instant(cm, dict(first, second_of_minute_decimal=0.0)))
+        for _ in range(n - 1):
+            delta = 60 * draw(st.sampled_from([0, 0, 0, 1, -1, 60, -60, 1440,
+                                               -1440, 30, -30]))
+            kw = G.respell(draw, cm, whole + delta, tz=draw(tzs), allow24=False)
+            kw["second_of_minute_decimal"] = f
+            pts.append(kw)
+        if draw(st.booleans()):
+            pts.reverse()
+        return {"mode": mode, "pts": pts}
     for _ in range(n - 1):
         how = draw(st.sampled_from(["indep", "near", "near", "near"]))
         base = draw(st.sampled_from(pts))
